@@ -266,7 +266,8 @@ PROPS["C03"] = {
     "trusted_base": ["rustc/cargo; harness bin c03; ed25519-dalek; STM verifier (C01)"],
     "assumptions": ["default features (future_snark off): only concatenation multi-signatures"],
     "goals_not_proved": ["C03_acyclic as a separate theorem (cycles are excluded through C03_finite + content-hash binding)",
-                         "C03_cache_inv_step (store_validated_certificate preserves CacheInv): not stated"],
+                         "within one call the model reads the cache as it was when the call started (records made earlier in the same call are only "
+                         "reachable again through a cyclic chain, on which the real client loops without ever accepting)"],
 }
 
 PROPS["C07"] = {
